@@ -35,17 +35,12 @@ TECHNIQUE = 'static analysis (ast): exception-class audit over the call-graph cl
 EXC_MOD = 'pydbml.exceptions'
 # (function, exception class) -> reason why this raise is not an internal error of parsing/rendering
 RAISE_OK = {
-    ('pydbml.parser.parser:PyDBML.__new__', 'builtin:TypeError'): 'the documented source-type guard (C12)',
     ('pydbml.definitions.table:parse_table', 'builtin:SyntaxError'): 'the documented error for a table without columns',
     ('pydbml.parser.parser:PyDBMLParser.parse_blueprint', 'builtin:RuntimeError'): 'defensive: every top-level alternative yields one of the six blueprint classes (C01-wiring)',
     ('pydbml.parser.parser:PyDBMLParser.locate_table', 'builtin:RuntimeError'): 'defensive: build_database creates the Database before any blueprint is built',
     ('pydbml.parser.blueprints:ReferenceBlueprint.build', 'builtin:RuntimeError'): 'defensive: parse_blueprint sets .parser on every reference blueprint (C05-wiring)',
     ('pydbml.parser.blueprints:TableGroupBlueprint.build', 'builtin:RuntimeError'): 'defensive: parse_blueprint sets .parser on every collected blueprint (C05-wiring)',
     ('pydbml.tools:doublequote_string', 'builtin:ValueError'): 'quoted identifiers are single-line tokens (C01-lex), so a parsed name cannot contain a line break',
-    ('pydbml._classes.table:Table.add_column', 'builtin:TypeError'): 'argument-type guard of the public API; the parser passes Column objects (ColumnBlueprint.build returns Column)',
-    ('pydbml._classes.table:Table.add_index', 'builtin:TypeError'): 'argument-type guard of the public API; the parser passes Index objects',
-    ('pydbml._classes.table:Table.__getitem__', 'builtin:TypeError'): 'argument-type guard of the public API; the parser subscripts with str',
-    ('pydbml.database:Database.__getitem__', 'builtin:TypeError'): 'argument-type guard of the public API; not used by the parser',
     ('pydbml.renderer.base:BaseRenderer.model_renderers', 'builtin:NotImplementedError'): 'abstract placeholder; both concrete renderers define the registry as a class attribute',
     ('pydbml.renderer.base:BaseRenderer.render_db', 'builtin:NotImplementedError'): 'abstract placeholder; both concrete renderers override render_db',
 }
@@ -53,6 +48,31 @@ RAISE_OK = {
 
 # attributes whose parsed values come from a closed vocabulary of the grammar (C07-vocab): they cannot contain braces
 CLOSED_VOCAB_ATTRS = {'on_update': 'referential action keyword', 'on_delete': 'referential action keyword'}
+
+
+def argument_type_guard(fi: FuncInfo, r: ast.Raise) -> bool:
+    """Every path that reaches `r` got there through tests on the function's own parameters only, at least one of them a failed isinstance test."""
+    if not isinstance(fi.node, ast.FunctionDef):
+        return False
+    params = {a.arg for a in fi.node.args.args + fi.node.args.kwonlyargs}
+    n = 0
+    for path in paths_of(fi, 1):
+        if path[-1].kind != 'raise' or path[-1].node is not r:
+            continue
+        n += 1
+        lits = [c for ev in path if ev.kind == 'test' for c in conjuncts(term(ev.node, ev.outcome))]
+        if not any(l[0] == 'not' and isinstance(l[1], tuple) and l[1][0] == 'isinstance' and str(l[1][1]).split('.')[0] in params for l in lits):
+            return False
+
+        def about_params(l) -> bool:
+            if l[0] == 'not':
+                return about_params(l[1]) if isinstance(l[1], tuple) else False
+            if l[0] in ('or', 'and'):
+                return all(about_params(x) for x in l[1])
+            return len(l) > 1 and isinstance(l[1], str) and l[1].split('.')[0].split('[')[0] in params
+        if not all(about_params(l) for l in lits):
+            return False
+    return n > 0
 
 
 def closure_funcs(ctx, gm) -> Dict[str, FuncInfo]:
@@ -216,6 +236,9 @@ def run(ctx, col: Collector):
                 cons = f'{fid}:{cls.split(":")[-1]}:{norm(r.exc)[:50]}'
                 if cls.startswith(EXC_MOD + ':') or cls.startswith('ext:pyparsing'):
                     col.ok('C08-raise', cons, f'raises the library/parse exception {cls.split(":")[-1]}', node=r, file=fi.file)
+                elif cls == 'builtin:TypeError' and argument_type_guard(fi, r):
+                    col.ok('C08-raise', cons, 'argument-type guard: TypeError on the fall-through of an isinstance dispatch over a parameter (the documented error for an '
+                           'unsupported source / argument type)', node=r, file=fi.file)
                 elif (fid, cls) in RAISE_OK:
                     col.ok('C08-raise', cons, f'listed exception: {RAISE_OK[(fid, cls)]}', node=r, file=fi.file)
                 else:
